@@ -71,3 +71,94 @@ def observe(net, c, names, extra=True):
         for meth in ("nsi_degree", "nsi_indegree", "nsi_outdegree", "nsi_local_clustering"):
             rec(meth + "_tw2", lambda meth=meth: getattr(net, meth)(typical_weight=2.0))
     return m, x
+
+
+SKIP = {
+    # constructors / copies / io / mutators / plotting / random / printing
+    "copy", "undirected_copy", "permuted_copy", "splitted_copy", "save", "Load", "FromIGraph",
+    "SmallTestNetwork", "SmallDirectedTestNetwork", "Model", "ErdosRenyi", "BarabasiAlbert",
+    "BarabasiAlbert_igraph", "Configuration", "WattsStrogatz", "GrowWeights", "randomly_rewire",
+    "clear_cache", "cache_clear", "set_edge_list", "set_link_attribute", "set_node_attribute",
+    "del_link_attribute", "del_node_attribute", "spreading", "nsi_spreading",
+    "distance_based_measures", "hamming_distance_from", "weighted_local_clustering",
+    "edge_list", "method", "set_node_weight_type", "randomly_rewire_geomodel_I",
+    "randomly_rewire_geomodel_II", "randomly_rewire_geomodel_III", "set_random_links_by_distance",
+    "save_for_cgv", "shuffled_by_distance_copy", "ConfigurationModel", "update_resistances",
+    "update_admittance", "update_R", "SmallComplexNetwork", "set_silence_level",
+    "print_boundaries", "geographical_distribution", "geographical_cumulative_distribution",
+    # sparse helper matrices (representation, not measures)
+    "sp_Aplus", "sp_diag_w", "sp_diag_w_inv", "sp_diag_sqrt_w", "sp_nsi_diag_k", "sp_nsi_diag_k_inv",
+}
+GLOBAL_VECTOR_HINTS = ("distribution", "cdf", "histogram")
+
+
+def discover(obj, extra_skip=()):
+    """Names of public methods callable without arguments."""
+    import inspect
+    out = []
+    for name in sorted(dir(obj)):
+        if name.startswith("_") or name in SKIP or name in extra_skip:
+            continue
+        try:
+            f = getattr(obj, name)
+        except Exception:
+            continue
+        if not callable(f) or isinstance(f, type):
+            continue
+        g = getattr(f, "__wrapped__", f)
+        try:
+            sig = inspect.signature(g)
+        except (TypeError, ValueError):
+            continue
+        req = [p for p in sig.parameters.values()
+               if p.default is inspect.Parameter.empty and p.name != "self"
+               and p.kind in (p.POSITIONAL_ONLY, p.POSITIONAL_OR_KEYWORD)]
+        if req:
+            continue
+        out.append(name)
+    return out
+
+
+def classify(obj_n, label, val, o):
+    """Put an encoded value into o['s'|'v'|'m'|'g'] by shape."""
+    if hasattr(val, "toarray"):
+        val = val.toarray()
+    if isinstance(val, dict):
+        for k, v in sorted(val.items()):
+            classify(obj_n, "%s[%s]" % (label, k), v, o)
+        return
+    if isinstance(val, tuple):
+        for k, v in enumerate(val):
+            classify(obj_n, "%s[%d]" % (label, k), v, o)
+        return
+    if val is None or isinstance(val, str):
+        return
+    a = np.asarray(val)
+    if a.dtype == object or a.dtype.kind in "US":
+        return
+    if any(h in label for h in GLOBAL_VECTOR_HINTS):
+        if a.ndim <= 1:
+            o["g"][label] = enc.arr(np.atleast_1d(a))
+        return
+    if a.ndim == 0:
+        o["s"][label] = enc.num(a[()])
+    elif a.ndim == 1 and a.shape[0] == obj_n:
+        o["v"][label] = enc.arr(a)
+    elif a.ndim == 2 and a.shape == (obj_n, obj_n):
+        o["m"][label] = enc.arr(a)
+    elif a.ndim == 1:
+        o["g"][label] = enc.arr(a)
+
+
+def observe_all(obj, names, n=None, calls=()):
+    """Observation in s/v/m/g/x form of the argument-free methods `names` plus extra
+    (label, thunk) calls."""
+    o = {"s": {}, "v": {}, "m": {}, "g": {}, "x": {}}
+    n = obj.N if n is None else n
+    todo = [(nm, getattr(obj, nm)) for nm in names] + list(calls)
+    for label, thunk in todo:
+        try:
+            classify(n, label, thunk(), o)
+        except Exception as ex:
+            o["x"][label] = type(ex).__name__
+    return o
